@@ -5,7 +5,7 @@ import Driver.Block
 /-! Driver for E-erc20.
 `einit tokens=<tok:denom,..> blocked=<ids> addrs=<ids> denoms=<ids> bal=<a:d:n,..> sup=<d:n,..>`
 `erc t=<tok> c=<caller> m=<method> a=<addr> b=<addr> n=<amount>`
-`esend f=<from> t=<to> d=<denom> n=<amount>`
+`esend f=<from> t=<to> d=<denom> n=<amount>`   `etouch c=<caller> a=<addr>`
 every answer ends with a digest of all balances, supplies and allowances over the declared universe. -/
 namespace Driver.Erc20
 open Evermint Evermint.Erc20 Driver.Block
@@ -112,6 +112,10 @@ def step (d : DState) (toks : List String) : DState × String :=
     let r := Evermint.CallTree.execList { s := d.s, logs := [] } (kvNat rest "self") acts
     let d' := { d with s := r.s }
     (d', s!"ok logs={showLogs r.logs} " ++ digest d')
+  | "etouch" :: _ =>
+    -- a zero-value plain EVM message: no account of the universe changes (an account that holds coins of any
+    -- denomination is not empty and survives being touched)
+    (d, "ok " ++ digest d)
   | "esend" :: rest =>
     let (s', ok) := bankSend d.s (kvNat rest "f") (kvNat rest "t") (kvNat rest "d") (kvNat rest "n")
     let d' := { d with s := s' }
